@@ -690,3 +690,56 @@ pub fn check_issued(
     }
     Ok(())
 }
+
+/// Map each genuine disclosure string of an issued SD-JWT to the path of the claim it hides
+/// (walks the claims and the issued structure in parallel).
+pub fn disclosure_paths(u: &J, payload: &Map<String, J>, disclosures: &[String]) -> HashMap<String, Path> {
+    fn in_obj(u: Option<&Map<String, J>>, p: &Map<String, J>, path: &mut Path, idx: &DiscIndex, out: &mut HashMap<String, Path>) {
+        for (k, v) in p {
+            if k == "_sd" {
+                continue;
+            }
+            path.push(Seg::Key(k.clone()));
+            in_val(u.and_then(|m| m.get(k)), v, path, idx, out);
+            path.pop();
+        }
+        if let Some(J::Array(ds)) = p.get("_sd") {
+            for d in ds {
+                let Some((text, dec)) = d.as_str().and_then(|d| idx.by_digest.get(d)) else { continue };
+                let Some(arr) = dec.as_array().filter(|a| a.len() == 3) else { continue };
+                let Some(name) = arr[1].as_str() else { continue };
+                path.push(Seg::Key(name.to_string()));
+                out.insert(text.clone(), path.clone());
+                in_val(u.and_then(|m| m.get(name)), &arr[2], path, idx, out);
+                path.pop();
+            }
+        }
+    }
+    fn in_val(u: Option<&J>, p: &J, path: &mut Path, idx: &DiscIndex, out: &mut HashMap<String, Path>) {
+        match p {
+            J::Object(po) => in_obj(u.and_then(|x| x.as_object()), po, path, idx, out),
+            J::Array(pa) => {
+                for (i, e) in pa.iter().enumerate() {
+                    path.push(Seg::Idx(i));
+                    let ue = u.and_then(|x| x.as_array()).and_then(|a| a.get(i));
+                    if let Some(d) = e.as_object().filter(|o| o.len() == 1).and_then(|o| o.get("...")).and_then(|d| d.as_str()) {
+                        if let Some((text, dec)) = idx.by_digest.get(d) {
+                            if let Some(arr) = dec.as_array().filter(|a| a.len() == 2) {
+                                out.insert(text.clone(), path.clone());
+                                in_val(ue, &arr[1], path, idx, out);
+                            }
+                        }
+                    } else {
+                        in_val(ue, e, path, idx, out);
+                    }
+                    path.pop();
+                }
+            }
+            _ => {}
+        }
+    }
+    let idx = DiscIndex::new(disclosures);
+    let mut out = HashMap::new();
+    in_obj(u.as_object(), payload, &mut Vec::new(), &idx, &mut out);
+    out
+}
